@@ -92,7 +92,13 @@ pub fn apply(w: &mut RouterWorld, cfg: &Cfg, a: &Act) {
                 // router only for takeovers, which C16 excludes; the model drops it
                 w.model.wills.remove(NAMES[ci]);
             }
-            let alias_max = if w.clients[ci].v5 && cfg.variant >= 100 { 10 } else { 0 };
+            // variants 100 / 101: room for ten broker-side aliases; 102: for one only (two
+            // topics compete for it)
+            let alias_max = match (w.clients[ci].v5, cfg.variant) {
+                (true, 102) => 1,
+                (true, v) if v >= 100 => 10,
+                _ => 0,
+            };
             w.connect(ci, *clean, spec, alias_max);
         }
         Act::Sub { c, f, qos } => {
@@ -236,6 +242,9 @@ pub fn apply(w: &mut RouterWorld, cfg: &Cfg, a: &Act) {
             if !v.is_empty() {
                 w.send(ci, v);
             }
+        }
+        Act::Pick { k } => {
+            w.pick_mode = *k;
         }
         Act::AckNThen { c, n, then } => {
             let ci = *c as usize;
@@ -755,17 +764,21 @@ fn enabled_c15(w: &RouterWorld, cfg: &Cfg, v: &mut Vec<(Act, u8)>) {
     if live(w, p) {
         for t in 0..cfg.topics.len() as u8 {
             for (retain, empty) in [(true, false), (true, true), (false, false), (false, true)] {
-                let qos = if cfg.variant == 1 { 1 } else { 0 };
-                v.push((Act::Pub { c: p, t, qos, retain, empty, props: 0 }, 0));
+                // variant 2: retained QoS 2 publishes (stored when released), MQTT 5
+                // publisher whose retained messages carry properties
+                let qos = cfg.variant.min(2);
+                let props = if cfg.variant == 2 && !empty { 3 } else { 0 };
+                v.push((Act::Pub { c: p, t, qos, retain, empty, props }, 0));
             }
         }
     }
+    rel_actions(w, &[p], v);
     for c in [2u8, 3u8] {
         if !live(w, c) {
             continue;
         }
         for f in 0..cfg.filters.len() as u8 {
-            let q = if cfg.variant == 1 { 1 + (f % 2) } else { f % 2 };
+            let q = if cfg.variant >= 1 { 1 + (f % 2) } else { f % 2 };
             // repeated subscriptions are part of the alphabet (no replay owed)
             v.push((Act::Sub { c, f, qos: q }, 0));
             if active_sub(w, c, &cfg.filters[f as usize]) {
@@ -847,6 +860,14 @@ fn enabled_c17(w: &RouterWorld, cfg: &Cfg, v: &mut Vec<(Act, u8)>) {
         }
         if cfg.variant == 2 {
             v.push((Act::Burst { c: p, t: 0, qos: 0, n: 220 }, 0));
+        }
+    }
+    if cfg.strategy == 1 {
+        // what the random strategy draws next is the environment's choice
+        for k in 0..3u8 {
+            if k != w.pick_mode {
+                v.push((Act::Pick { k }, 0));
+            }
         }
     }
     let members: &[u8] = if matches!(cfg.variant, 2 | 4) { &[1, 2] } else { &[1, 2, 3] };
